@@ -111,6 +111,41 @@ fn c29_min_max_after_unit_conversion() {
     assert!(extreme(&w, Ordering::Greater) == Some((3.0, UnitSet::scalar())));
     assert!(extreme(&w, Ordering::Less) == Some((2.0, UnitSet::scalar())));
 }
+/// C29: min / max return one of their arguments also when a unitless
+/// argument ties with one that has a unit (1 and 1px compare equal).
+#[kani::proof]
+#[kani::unwind(5)]
+fn c29_min_max_tie_between_unitless_and_unit() {
+    let v = [nos(1.0, Unit::Px), nos(1.0, Unit::None)];
+    let r = extreme(&v, Ordering::Greater);
+    assert!(r == Some((1.0, UnitSet::from(Unit::Px))) || r == Some((1.0, UnitSet::scalar())), "max(1px, 1) is one of its arguments");
+    let w = [nos(1.0, Unit::Px), nos(1.0, Unit::None), nos(7.0, Unit::Px)];
+    assert!(extreme(&w, Ordering::Greater) == Some((7.0, UnitSet::from(Unit::Px))), "max(1px, 1, 7px) is 7px");
+}
+fn fmt_stub(_a: std::fmt::Arguments<'_>) -> String {
+    String::new()
+}
+/// C29: pow / sqrt / log / exp require unitless input — `%` and `fr` are
+/// units too.  One harness per unit.
+macro_rules! unitless_case {
+    ($name:ident, $unit:expr, $ok:expr) => {
+        #[kani::proof]
+        #[kani::stub(alloc::fmt::format, fmt_stub)]
+        #[kani::unwind(5)]
+        fn $name() {
+            let r = unitless(Value::Numeric(Numeric::new(25.0, UnitSet::from($unit)), false));
+            if $ok {
+                assert!(r == Ok(25.0), "a unitless number is accepted");
+            } else {
+                assert!(r.is_err(), "a number with a unit (also % and fr) is rejected");
+            }
+        }
+    };
+}
+unitless_case!(c29_unitless_accepts_plain_number, Unit::None, true);
+unitless_case!(c29_unitless_rejects_percent, Unit::Percent, false);
+unitless_case!(c29_unitless_rejects_fr, Unit::Fr, false);
+unitless_case!(c29_unitless_rejects_px, Unit::Px, false);
 /// C29: incompatible units are an error.
 #[kani::proof]
 #[kani::unwind(5)]
